@@ -258,3 +258,31 @@ Example rw_closed_ex :
   rw_bool_de_morgan (T [lf "not"; T [lf "and"; lf "a"; lf "b"]])
     = Some [T [lf "or"; T [lf "not"; lf "a"]; T [lf "not"; lf "b"]]].
 Proof. vm_compute. repeat split; reflexivity. Qed.
+
+(* closure of the structural mutators, of LetSubstitution and of the names proposed by SimplifySymbolNames
+   (Model/CoreRw.v, Model/LetRw.v; statements in Props/CoreRw.v and Props/C17Let.v) *)
+From DD Require Import Props.CoreRw Props.C17Let.
+Theorem c15_erase_child_closed : ltac:(let t := type of core_erase_child_closed in exact t).
+Proof. exact core_erase_child_closed. Qed.
+Print Assumptions c15_erase_child_closed.
+Theorem c15_replace_by_child_closed : ltac:(let t := type of core_replace_by_child_closed in exact t).
+Proof. exact core_replace_by_child_closed. Qed.
+Print Assumptions c15_replace_by_child_closed.
+Theorem c15_merge_children_closed : ltac:(let t := type of core_merge_children_closed in exact t).
+Proof. exact core_merge_children_closed. Qed.
+Print Assumptions c15_merge_children_closed.
+Theorem c15_sort_children_closed : ltac:(let t := type of core_sort_children_closed in exact t).
+Proof. exact core_sort_children_closed. Qed.
+Print Assumptions c15_sort_children_closed.
+Theorem c15_binary_reduction_closed : ltac:(let t := type of core_binary_reduction_closed in exact t).
+Proof. exact core_binary_reduction_closed. Qed.
+Print Assumptions c15_binary_reduction_closed.
+Theorem c15_let_elim_closed : ltac:(let t := type of core_let_elim_closed in exact t).
+Proof. exact core_let_elim_closed. Qed.
+Print Assumptions c15_let_elim_closed.
+Theorem c15_let_subst_closed : ltac:(let t := type of rw_let_subst_wf in exact t).
+Proof. exact rw_let_subst_wf. Qed.
+Print Assumptions c15_let_subst_closed.
+Theorem c15_symbol_names_are_symbols : ltac:(let t := type of core_ssn_symbol_wf in exact t).
+Proof. exact core_ssn_symbol_wf. Qed.
+Print Assumptions c15_symbol_names_are_symbols.
